@@ -303,6 +303,26 @@ CLAIMED["C01"] = {
     "design_ref": "DESIGN.md section 8, C01",
 }
 
+CLAIMED["C02"] = {
+    "text": "Local detection theorems for EVERY validator state, header and word: C02_rdh_sanity_reported / C02_rdh_running_reported (a non-empty "
+            "tag list -- characterised by the iff-theorems of C10 -- yields an [E10] / [E11] at the RDH's offset in every mode / in `check all`), "
+            "C02_running_not_in_sanity (no [E11] under `check sanity`), C02_ihw/tdh/tdt/ddw0_rules (a word that breaks a rule of the word the state "
+            "machine expects -- C11 iff -- is reported with that word's family at the word), C02_unrecognised_identifier ([E990..E992] in choice "
+            "states), C02_padding_limit, the state-dependent rules of checks_list.md (C02_ddw0_page_rules, C02_ihw_stop_bit, C02_tdh_must_continue, "
+            "C02_tdh_must_not_continue_after_ihw, C02_tdh_must_not_continue_after_complete_packet -- the last one type-checks only while the source "
+            "performs the test, regenerated fact), C02_messages_never_retracted / C02_reported_in_run (a message emitted at packet p is in the "
+            "validator's final output whatever follows), C02_exit. Tied to the code by a fault catalogue of 37 entries (one or more mutations per "
+            "bullet of checks_list.md and per README family) applied at first / middle / last / any non-first packets of random links of generated "
+            "conforming streams, through the rebuilt binary in all five modes (also with RDH-only streams with empty payloads and with a harmless "
+            "custom-checks file): a message of the documented family must be at the offending offset with the -E status where the rule is active. "
+            "Defect F15 (continuation bit after a complete packet not checked) was found by this check and repaired by a fix: commit.",
+    "note": "Trusted: Coq kernel; gen translator; binary; the catalogue's reading of the documentation (families, mode table). The theorems are local "
+            "(one step of the validator from an arbitrary state) plus monotonicity; the statement `for every conforming stream and position` "
+            "quantifies over reachable states only, which the theorems cover a fortiori; that the prefix before the fault is silent is C01.",
+    "technique": "Coq proof (one-step detection lemmas per rule family + monotonicity of the message list) + fault-catalogue sweep through the rebuilt binary",
+    "design_ref": "DESIGN.md section 8, C02",
+}
+
 ALL = ["C%02d" % i for i in range(1, 21)]
 PENDING_REASON = "not claimed yet: the model/proof for this property is still under construction in this development (see DESIGN.md section 12 build order); no check is registered until its theorem file compiles without admits and its correspondence stream runs"
 
@@ -350,7 +370,7 @@ def main():
 
 
 HOOK_COMMITS = ["f32fed4"]
-FIX_COMMITS = ["2eb10e8", "024b878", "afd2aa3", "f731241", "add603d", "adf846c", "02e4e23"]
+FIX_COMMITS = ["2eb10e8", "024b878", "afd2aa3", "f731241", "add603d", "adf846c", "02e4e23", "df2db44"]
 NOT_APPLICABLE = {}
 
 if __name__ == "__main__":
